@@ -49,7 +49,20 @@ def run(ctx):
     else:
         co = [(c, configs[(k + j) % len(configs)]) for k, c in enumerate(cases) for j in range(2)
               if not (c["cls"] == "chebyshev" and configs[(k + j) % len(configs)][1] == "u")]
+    # roots below the double range: the solve ends in the DPE phase and get_roots_d must still hand out
+    # an inclusion disc although the value underflows (subnormal or 0).  Exact rational roots by construction.
+    tiny_names = set()
+    if not ctx.replay:
+        for E in ctx.pick((310, 322), (310, 316, 322, 330)):
+            rs = [(Fr(1, 10 ** E), Fr(0)), (Fr(1), Fr(0)), (Fr(-2), Fr(0)), (Fr(3), Fr(0))]
+            c = G.from_roots_case("tiny1e-%d" % E, "root-below-double-range", rs, ctx.rng, kind="Rational")
+            tiny_names.add(c["name"])
+            for alg in ("u", "s"):
+                co.append((c, ["-a", alg, "-G", "i"]))
     recs = e2e.run_records(ctx, binary, co, env, timeout=ctx.pick(120, 600))
+    for rec in recs:
+        if rec["case"]["name"] in tiny_names:
+            rec["max_bits"] = 1300; rec["target_override"] = -1160
     ctx.log("solves done: %d" % len(recs))
     # discs the oracle will be asked about: every accessor's disc
     def extra(rec):
